@@ -121,3 +121,6 @@ func VerifConnectedClients() float64 {
 
 // VerifCurrentSession returns the session this handler believes it is in (nil when not joined).
 func (h *RealtimeHandler) VerifCurrentSession() *models.Session { return h.currentSession }
+
+// VerifSetAppKey sets the app key the connection's token would have carried (HandleConnect reads it from the request).
+func (h *RealtimeHandler) VerifSetAppKey(k string) { h.appKey = k }
